@@ -29,7 +29,7 @@ CLASSES = ["GELU", "SiLU", "Softmax", "Dropout", "Linear", "LinearReadout", "Con
 @st.composite
 def cases(draw, tier):
     cls = draw(st.sampled_from(CLASSES))
-    c = dict(cls=cls, train=draw(st.booleans()), seed=draw(seeds), lead=draw(leads))
+    c = dict(cls=cls, train=draw(st.booleans()), seed=draw(seeds), lead=draw(leads), dtype=draw(st.sampled_from(["float64", "float64", "float32"])))
     if cls == "GELU":
         c.update(mult=draw(mults), constraint=draw(st.sampled_from(BIN)), approximate=draw(st.sampled_from(["none", "tanh"])), n=draw(st.integers(1, 8)))
     elif cls == "SiLU":
@@ -122,6 +122,7 @@ def f_layer(m, x, heads, causal, p, training, mhsa_tau, mlp_tau):
 def build(c):
     """returns (module, inputs tuple, functional-form callable(module, *inputs), twin callable(module,*inputs) or None, exact_one)"""
     cls = c["cls"]
+    D = torch.float64 if c.get("dtype", "float64") == "float64" else torch.float32  # noqa: N806  (module / input dtype of this case)
     g = torch.Generator().manual_seed(c["seed"])
     R = lambda shape: torch.randn(shape, generator=g, dtype=D)  # noqa: E731
     twin = None
@@ -266,7 +267,8 @@ def same(a, b):
     if a.shape != b.shape or not torch.equal(a.isnan(), b.isnan()):
         return False
     a0, b0 = a.nan_to_num(0.0), b.nan_to_num(0.0)
-    tol = 1e-12 * max(1e-300, float(b0.abs().max())) if b0.numel() else 0.0
+    rel = 1e-12 if a.dtype == torch.float64 else 4e-6   # float32 modules: the same operation sequence, rounding-level agreement
+    tol = rel * max(1e-300, float(b0.abs().max())) if b0.numel() else 0.0
     return bool(((a0 - b0).abs() <= tol).all())
 
 
@@ -349,11 +351,12 @@ def run(c) -> CaseResult:
                          f"module output {tuple(y1.shape)} vs torch.nn twin {tuple(yt.shape)}")
             elif bool(torch.isfinite(yt).all()):
                 f = pb.fit(y1, yt)
-                tol = 1e-6 if cls == "RMSNorm" else 1e-10
+                f32 = c.get("dtype") == "float32"
+                tol = 1e-6 if cls == "RMSNorm" else (2e-5 if f32 else 1e-10)
                 if f is not None:
                     if not f[1] <= tol or not f[0] > 0:
                         res.fail(f"C08.twin.value:{cls}", f"not a positive scalar multiple of the torch.nn twin: s={f[0]!r} residual={f[1]:.3g}")
-                    elif one and not abs(f[0] - 1) <= max(tol, 1e-12):
+                    elif one and not abs(f[0] - 1) <= max(tol, 1e-5 if f32 else 1e-12):
                         res.fail(f"C08.twin.scalar-not-1:{cls}", f"s={f[0]!r}")
                     # gradients wrt inputs (C02 fit), same upstream; sum-reduced reference for the mean-reduced loss
                     yt_g = yt
@@ -373,7 +376,7 @@ def run(c) -> CaseResult:
                         ff = pb.fit(a, b)
                         if ff is None:
                             continue
-                        gt_tol = 1e-4 if cls == "RMSNorm" else 1e-9
+                        gt_tol = 1e-4 if cls == "RMSNorm" else (2e-4 if f32 else 1e-9)
                         if not ff[1] <= gt_tol or not ff[0] > 0:
                             res.fail(f"C08.twin.grad:{cls}:{k.split('.')[-1]}", f"gradient wrt {k} is not a positive multiple of the twin's: s={ff[0]!r} residual={ff[1]:.3g}")
     res.nontrivial = True
